@@ -112,6 +112,27 @@ def pairs(rng):
         yield ("flat_line", "larger decimal tolerance", "qartod.flat_line_test",
                {"inp": gen.arr(xw), "tinp": Tr, "suspect_threshold": dS, "fail_threshold": 2 * dS, "tolerance": tolL},
                {"inp": gen.arr(xw), "tinp": Tr, "suspect_threshold": dS, "fail_threshold": 2 * dS, "tolerance": tolS})
+    if n >= 5:
+        # the same on an irregular axis (an outage, then samples closer together than the usual step): a longer duration is a
+        # longer window, nothing else
+        ti = [t[0]]
+        for k in range(1, n):
+            ti.append(ti[-1] + (D * 9 if k == n // 2 else D // 2 if (k > n // 2 and D > 1) else D))
+        flat = [5.0] * n
+        dL_, dS_ = rng.choice([(3 * D, D), (4 * D, 2 * D), (2 * D, D)])
+        yield ("flat_line", "shorter durations (irregular axis)", "qartod.flat_line_test",
+               {"inp": gen.arr(flat), "tinp": gen.times(ti), "suspect_threshold": dL_, "fail_threshold": 2 * dL_, "tolerance": 0.5},
+               {"inp": gen.arr(flat), "tinp": gen.times(ti), "suspect_threshold": dS_, "fail_threshold": 2 * dS_, "tolerance": 0.5})
+    if n >= 3:
+        # hourly data, durations of a day and more against durations under a day
+        th = gen.regular(72, 3600)
+        stuck = rng.choice([8, 14, 26])
+        xh = [3.0 + (k % 5) for k in range(20)] + [7.0] * stuck + [3.0 + (k % 4) for k in range(52 - stuck)]
+        sus_, fL_, fS_ = rng.choice([(12, 30, 20), (12, 49, 23), (10, 25, 24), (30, 49, 49), (26, 60, 30)])
+        susS_ = sus_ if sus_ <= 12 else rng.choice([10, sus_])
+        yield ("flat_line", "durations around one day", "qartod.flat_line_test",
+               {"inp": gen.arr(xh), "tinp": gen.times(th), "suspect_threshold": sus_ * 3600, "fail_threshold": fL_ * 3600, "tolerance": 0.5},
+               {"inp": gen.arr(xh), "tinp": gen.times(th), "suspect_threshold": susS_ * 3600, "fail_threshold": fS_ * 3600, "tolerance": 0.5})
     # attenuated signal
     ths = [0, 0.1, 0.25, 0.5, 1, 2, 5]
     for kind in ("std", "range"):
@@ -186,12 +207,28 @@ def pairs(rng):
                    {"config": [m1s, m2s] if order else [m2s, m1s], "inp": X, "tinp": Tm, "zinp": zz})
 
 
+def long_record_pair():
+    """a 70001-row record with flat episodes across rows 2^15 and 2^16: stricter (shorter) durations flag at least what
+    looser ones flag, wherever a blocked evaluation would cut"""
+    n = 70001
+    x = [float(k % 9) for k in range(n)]
+    for b in (32768, 65536):
+        for k in range(b - 6, b + 7):
+            x[k] = 500.0
+    t = gen.times(gen.regular(n, 60))
+    return [("flat_line", f"shorter durations (70001 rows, {a_}->{b_} s)", "qartod.flat_line_test",
+             {"inp": gen.arr(x), "tinp": t, "suspect_threshold": a_, "fail_threshold": 6000, "tolerance": 0.5},
+             {"inp": gen.arr(x), "tinp": t, "suspect_threshold": b_, "fail_threshold": 6000, "tolerance": 0.5})
+            for a_, b_ in ((240, 180), (180, 120), (420, 180), (300, 240))]
+
+
 def run(ctx) -> None:
     rng = ctx.rng
     ctx.require("c16.pairs_judged", 2000)
     ctx.require("c16.pairs_where_strict_is_worse_somewhere", 200)
-    for _ in range(ctx.pick(900, 6000)):
-        for mode, kind, func, loose, strict in pairs(rng):
+    extra_pairs = long_record_pair() if ctx.shard == 0 else []
+    for it_ in range(ctx.pick(900, 6000)):
+        for mode, kind, func, loose, strict in (list(pairs(rng)) + (extra_pairs if it_ == 0 else [])):
             a = client.invoke(func, loose)
             b = client.invoke(func, strict)
             if a.kind != "return" or b.kind != "return":
